@@ -1,7 +1,7 @@
 """C11 — tree navigation and position lookup (DESIGN §2 C11)."""
 from hypothesis import strategies as st
 
-from ..common import advance, crash_signature, digest, grammar, is_zero_width, leaves, nodes_preorder, ref_split_lines, short
+from ..common import PROVENANCES, tree_via, advance, crash_signature, digest, grammar, is_zero_width, leaves, nodes_preorder, ref_split_lines, short
 from ..engine import Outcome, Prop
 from ..gen import text as T
 
@@ -158,7 +158,7 @@ class C11(Prop):
             'tree ALL nodes, ALL leaves and EVERY (line, col) with col in 0..len(line)+1 (plus positions outside the file), both '
             'include_prefixes values, and 3 drawn type sets for search_ancestor. Oracle: in-order leaf list by own descent over '
             'children with leaf spans from the reference character walker over prefix+value (not parso\'s positions); identity comparisons. Non-trivial: tree has >=2 equal-valued operator/keyword siblings under one parent '
-            '(identity-vs-equality trap) or a zero-width error leaf. elementary_checks counts position lookups.')
+            '(identity-vs-equality trap) or a zero-width error leaf. elementary_checks counts position lookups. Tree provenance (3 of 7 cases): the tree is reached by an in-place diff_cache update from a line-edited earlier text on which all lookups were run first, through pickle, or is navigated twice.')
     budgets = {'quick': 8000, 'thorough': 800000}
 
     def strategy(self, tier):
@@ -167,27 +167,32 @@ class C11(Prop):
                          T.nested(20).map(lambda t: t[0]))
         return st.fixed_dictionaries({
             'code': text, 'version': T.version(),
-            'type_sets': st.lists(st.lists(st.sampled_from(TYPE_POOL), min_size=1, max_size=3), min_size=3, max_size=3)})
+            'type_sets': st.lists(st.lists(st.sampled_from(TYPE_POOL), min_size=1, max_size=3), min_size=3, max_size=3),
+            'prov': st.sampled_from(PROVENANCES), 'how': st.integers(0, 10 ** 4)})
 
     def check(self, case):
         code, v = case['code'], case['version']
         try:
-            m = grammar(v).parse(code)
-            fail, info = check_navigation(m, code, [tuple(t) for t in case['type_sets']])
+            ts = [tuple(t) for t in case['type_sets']]
+            m, prov = tree_via(grammar(v), code, case.get('prov', 'fresh'), case.get('how', 0), digest(code, v, 'c11').hex(),
+                               lambda mod, text: check_navigation(mod, text, ts))
+            fail, info = check_navigation(m, code, ts)
+            if fail is not None and prov != 'fresh':
+                fail = (fail[0], 'tree provenance %s: %s' % (prov, fail[1]))
         except RecursionError:
             return Outcome(excluded='recursion-limit')
         except Exception as e:
             return Outcome(fail=crash_signature(e), nontrivial=True, key=digest(code, v))
-        classes = []
+        classes = ['tree:' + prov]
         if info['identity_trap']:
             classes.append('equal-valued-siblings')
         if info['zero_width']:
             classes.append('zero-width-leaf')
-        return Outcome(fail=fail, nontrivial=bool(classes), classes=classes + T.classify_text(code),
-                       key=digest(code, v), units=max(1, info['lookups']))
+        return Outcome(fail=fail, nontrivial=len(classes) > 1, classes=classes + T.classify_text(code),
+                       key=digest(code, v, prov), units=max(1, info['lookups']))
 
     def sample_repr(self, case):
-        return {'code': short(case['code'], 200), 'version': case['version'], 'type_sets': case['type_sets']}
+        return {'code': short(case['code'], 200), 'version': case['version'], 'type_sets': case['type_sets'], 'tree': case.get('prov', 'fresh')}
 
 
 PROP = C11()
